@@ -132,6 +132,47 @@ func r15b(c *RuleCtx) {
 	r15bIn(c, props, fn, file, c.pos(acq), 0)
 }
 
+// bufOnlyRecycled: callee is a function of the package that takes the buffered writer only to reset it and
+// put it away (`putMergeWriter(br)`: br.Reset(nil); pool.Put(br)) — nothing is written through it there.
+func bufOnlyRecycled(p *Program, callee *ssa.Function, arg ssa.Value, cs ssa.CallInstruction) bool {
+	if callee == nil || !p.InZap(callee) || len(callee.Blocks) == 0 {
+		return false
+	}
+	var prm *ssa.Parameter
+	for i, a := range cs.Common().Args {
+		if a == arg && i < len(callee.Params) {
+			prm = callee.Params[i]
+		}
+	}
+	if prm == nil || prm.Referrers() == nil {
+		return false
+	}
+	for _, r := range *prm.Referrers() {
+		switch x := r.(type) {
+		case *ssa.DebugRef:
+		case *ssa.MakeInterface:
+			// handed to sync.Pool.Put only
+			for _, r2 := range *x.Referrers() {
+				c2, ok := r2.(ssa.CallInstruction)
+				if !ok {
+					return false
+				}
+				if f := staticCallee(c2); f == nil || f.String() != "(*sync.Pool).Put" {
+					return false
+				}
+			}
+		case ssa.CallInstruction:
+			f := staticCallee(x)
+			if f == nil || f.String() != "(*bufio.Writer).Reset" {
+				return false
+			}
+		default:
+			return false
+		}
+	}
+	return true
+}
+
 // r15bTail: an exit of fn that hands back, wholesale, the results of another function of the package that
 // creates the output file itself (`return mergeSmall(...)`): that function is judged as a root of its own.
 // Returns the callee, or nil.
@@ -232,16 +273,22 @@ func r15bIn(c *RuleCtx, props []string, fn *ssa.Function, file ssa.Value, acqPos
 					if callee != nil && c.p.InZap(callee) && callee.Parent() == nil && len(callee.Blocks) > 0 && ai < len(callee.Params) && fileOnlyReleased(callee.Params[ai]) {
 						continue // a cleanup helper: closes (syncs) the file and nothing else
 					}
+					if callee != nil && bufioWrapper(c.p, callee) == ai {
+						// a constructor of the buffered writer (`getMergeWriter(f)`): like bufio.NewWriterSize
+						bufw, _ = cs.(*ssa.Call)
+						continue
+					}
 					if callee != nil && c.p.InZap(callee) && callee.Parent() == nil && len(callee.Blocks) > 0 && ai < len(callee.Params) && isNamed(callee.Params[ai].Type(), "os", "File") && depth < 2 {
 						if call, ok := cs.(*ssa.Call); ok && delegate == nil {
 							delegate, delegateParam = call, callee.Params[ai]
 							continue
 						}
 					}
-					if !allowedFile[nm] {
+					isBufCtor := strings.HasPrefix(nm, "bufio.NewWriter") || (callee != nil && bufioWrapper(c.p, callee) == ai)
+					if !allowedFile[nm] && !isBufCtor {
 						bad = append(bad, "the output file is handed to "+nm+" ("+c.pos(cs)+"): bytes written there bypass the counting writer")
 					}
-					if strings.HasPrefix(nm, "bufio.NewWriter") {
+					if isBufCtor {
 						bufw, _ = cs.(*ssa.Call)
 					}
 				}
@@ -316,7 +363,7 @@ func r15bIn(c *RuleCtx, props []string, fn *ssa.Function, file ssa.Value, acqPos
 						counter, _ = cs.(*ssa.Call)
 						continue
 					}
-					if !allowedBuf[nm] {
+					if !allowedBuf[nm] && !bufOnlyRecycled(c.p, callee, a, cs) {
 						bad = append(bad, "the buffered writer is handed to "+nm+" ("+c.pos(cs)+"): bytes written there are not counted")
 					}
 				}
